@@ -166,7 +166,7 @@ def run_case(run, e1, case):
     stream = bytes.fromhex(case["stream"])
     prog = case["program"]
     nfollow = case["follow"]
-    cfg = e1.make_cfg()
+    cfg = e1.make_cfg(**case.get("cfg", {}))
     log = []
     state = {"n": 0, "consumed": None}
 
@@ -217,8 +217,12 @@ def make_case(rng):
         cuts = sorted(set(min(n - 1, max(1, k * 1024 + rng.choice([-1, 0, 1]))) for k in range(1, n // 1024 + 1)))
     else:
         cuts = sorted(rng.sample(range(1, n), min(n - 1, rng.randint(1, 8))))
+    # the header limits say nothing about bodies: any setting that admits these (tiny) header blocks must give the same body
+    cfg = rng.choice([{}, {}, {"limit_request_fields": 8, "limit_request_field_size": 128},
+                      {"limit_request_fields": 4, "limit_request_field_size": 64, "limit_request_line": 256},
+                      {"limit_request_field_size": 0}, {"limit_request_line": 0, "limit_request_fields": 3}])
     return {"body": body.hex(), "stream": stream.hex(), "framing": label, "program": gen_program(rng),
-            "follow": nfollow, "cuts": cuts}
+            "follow": nfollow, "cuts": cuts, "cfg": cfg}
 
 
 def shard(sh):
@@ -232,6 +236,8 @@ def shard(sh):
         kinds = set(op[0] for op in case["program"])
         run.case(common.sha12([case["stream"], case["program"], case["cuts"][:16]]), nontrivial=len(kinds) >= 2)
         run.count("framing/" + case["framing"].split("/")[0])
+        if case["cfg"]:
+            run.count("non_default_header_limits")
         for mech, summary in run_case(run, e1, case):
             run.violation(mech, summary + " | framing=%s body_len=%d program=%s" % (
                 case["framing"], len(case["body"]) // 2, case["program"]), case)
@@ -244,7 +250,7 @@ def shard(sh):
 def main(tier, seed):
     run = Run(PROP, tier, seed, "exploration", RULE)
     run.require("programs_completed", "stopped_before_eof", "consumed_to_eof", "followed_by_pipelined_request",
-                "framing/cl", "framing/chunked")
+                "framing/cl", "framing/chunked", "non_default_header_limits")
     q = tier == "quick"
     per = 4000 if q else 40000
     shards = [{"n": per, "sub": s, "seed": seed, "tier": tier} for s in range(48 if q else 128)]
